@@ -3688,6 +3688,7 @@ void PrintDebSections(FILE* f) {
     Lauf = FirstSection;
     Cnt  = 0;
     while (Lauf) {
+        errno = 0;
         fputs("\nInfo for Section ", f);
         ChkIO(ErrNum_FileWriteError);
         fprintf(f, "%" PRId32, Cnt);
